@@ -452,3 +452,38 @@ def r14e(model: Model, rr: RuleResult):
                "is shifted right by half the difference (32 px) instead of filling its advance", construct="BitmapMetrics.create: x_offset uses config.bitmap_resolution as the bitmap width")
     else:
         rr.bad(c, subs[0], f"x_offset subtracts {w} from the pixel advance, expected the bitmap's own width", construct=f"BitmapMetrics.create: x_offset uses {w}")
+
+
+@RULES.rule("C14", "R14f", "the pixel advance is the larger of the configured width and the bitmap's own width, on every path (sibling of _advance_width)", floor=2)
+def r14f(model: Model, rr: RuleResult):
+    from ..dataflow import expr_closure
+    fi = model.func("bitmap_tables", "_width_in_pixels")
+    cfg = cfg_of(fi)
+    cparam, iparam = fi.params[0], fi.params[1]
+    rets = [st for st in walk_body(fi) if isinstance(st, ast.Return) and st.value is not None]
+    if not rets:
+        raise AnalysisError("_width_in_pixels: no return")
+    for st in rets:
+        _, exprs = expr_closure(cfg, cfg.node_for(st), st.value)
+        ok = False
+        for e in exprs:
+            for n in ast.walk(e):
+                if isinstance(n, ast.Call) and norm(n.func) == "max" and len(n.args) == 2:
+                    sides = []
+                    for a in n.args:
+                        _, ae = expr_closure(cfg, cfg.node_for(st), a)
+                        t = " ".join(norm(x) for x in ae)
+                        sides.append((f"{cparam}.width" in t, f"{iparam}.size[0]" in t or f"{iparam}.size" in t))
+                    if (sides[0][0] and sides[1][1]) or (sides[1][0] and sides[0][1]):
+                        ok = True
+        if ok:
+            rr.ok(f"`{short(st, 60)}`: max(configured width, bitmap width) in one unit")
+        else:
+            rr.bad(fi, st, f"`{short(st, 60)}` does not take the larger of {cparam}.width and the bitmap's width: hmtx (color_glyph._advance_width) does, so the CBDT "
+                   f"pixel advance and the scaled font advance disagree for a narrow bitmap in a fixed-width font", construct=f"_width_in_pixels: {short(st, 60)} without max(config.width, ...)")
+    afi = model.func("color_glyph", "_advance_width")
+    at = " ".join(norm(x) for x in afi.body)
+    if "max(config.width," in at.replace("\n", " "):
+        rr.ok("_advance_width: max(config.width, proportional width)")
+    else:
+        rr.bad(afi, afi.node, "_advance_width no longer takes the larger of the configured and the proportional width", construct="_advance_width: max(config.width, ...) missing")
